@@ -44,6 +44,13 @@ def construct(cls, x, t):
 
 
 def describe(o):
+    try:
+        return _describe(o)
+    except Exception as e:
+        return 'cannot describe %s: %r' % (type(o).__name__, e)
+
+
+def _describe(o):
     """Real object -> (cls, frozen, x, time) or a string describing a mismatch."""
     import mido
     from mido.frozen import is_frozen
@@ -55,11 +62,11 @@ def describe(o):
     try:
         if base == 'Message':
             if o.type != 'note_on' or o.channel != 0 or o.velocity != 64:
-                return 'unexpected %r' % (o,)
+                return 'unexpected %s' % core.srepr(o)
             return (1, fr, o.note, o.time)
         if base == 'UnknownMetaMessage':
             if o.type_byte != 0x60 or len(o.data) != 1:
-                return 'unexpected %r' % (o,)
+                return 'unexpected %s' % core.srepr(o)
             return (4, fr, o.data[0], o.time)
         if base == 'MetaMessage':
             if o.type == 'set_tempo':
@@ -68,7 +75,7 @@ def describe(o):
                 return (3, fr, o.data[0], o.time)
     except Exception as e:
         return 'cannot read %r: %r' % (name, e)
-    return 'unexpected object %r' % (o,)
+    return 'unexpected object %s' % core.srepr(o)
 
 
 def parse_row(ints):
@@ -99,7 +106,10 @@ def replay_history(steps):
                 objs.append(construct(CLS[c], x, t))
             elif op == 'copy':
                 src = objs[i - 1]
-                c = CLS[describe(src)[0]]
+                d0 = describe(src)
+                if isinstance(d0, str):
+                    return 'heap-mismatch/copy', '%s: source object: %s' % (where, d0)
+                c = CLS[d0[0]]
                 if attr == '':
                     ovr = {}
                 elif attr == 'x':
@@ -134,7 +144,7 @@ def replay_history(steps):
                     if not ovr and not (r == src):
                         return 'copy-not-equal/' + c, '%s: copy != original' % where
                     if not (thaw_message(r) == fresh):
-                        return 'copy-not-fresh/' + c, '%s: copy(%r) = %r, fresh construction gives %r' % (where, ovr, r, fresh)
+                        return 'copy-not-fresh/' + c, '%s: copy(%r) = %s, fresh construction gives %s' % (where, ovr, core.srepr(r), core.srepr(fresh))
                     objs.append(r)
             elif op == 'freeze':
                 src = objs[i - 1]
@@ -146,7 +156,7 @@ def replay_history(steps):
                     if r is src:
                         return 'freeze-same-object', '%s: freeze returned the original' % where
                     if not (r == src):
-                        return 'freeze-not-equal', '%s: frozen %r != original %r' % (where, r, src)
+                        return 'freeze-not-equal', '%s: frozen %s != original %s' % (where, core.srepr(r), core.srepr(src))
                     objs.append(r)
             elif op == 'thaw':
                 src = objs[i - 1]
@@ -154,10 +164,12 @@ def replay_history(steps):
                 if r is src:
                     return 'thaw-same-object', '%s: thaw returned the original' % where
                 if not (r == src):
-                    return 'thaw-not-equal', '%s: thawed %r != original %r' % (where, r, src)
+                    return 'thaw-not-equal', '%s: thawed %s != original %s' % (where, core.srepr(r), core.srepr(src))
                 objs.append(r)
             elif op == 'setattr':
                 o = objs[i - 1]
+                if isinstance(describe(o), str):
+                    return 'heap-mismatch/setattr', '%s: %s' % (where, describe(o))
                 c = CLS[describe(o)[0]]
                 name, val = xval(c, v) if attr == 'x' else ('time', v)
                 try:
@@ -175,17 +187,17 @@ def replay_history(steps):
                 try:
                     ha, hb = hash(a), hash(b)
                 except Exception as e:
-                    return 'hash-raises/' + CLS[describe(a)[0]], '%s: hash raised %r' % (where, e)
+                    return 'hash-raises', '%s: hash raised %r' % (where, e)
                 if ok:
                     if not (a == b):
-                        return 'equal-frozen-not-equal', '%s: %r != %r' % (where, a, b)
+                        return 'equal-frozen-not-equal', '%s: %s != %s' % (where, core.srepr(a), core.srepr(b))
                     if ha != hb:
                         return 'hash-differs', '%s: equal frozen messages hash differently' % where
                     if {a: 1}.get(b) != 1:
                         return 'dict-key', '%s: equal frozen message not found as dictionary key' % where
                 else:
                     if a == b:
-                        return 'unequal-frozen-equal', '%s: %r == %r' % (where, a, b)
+                        return 'unequal-frozen-equal', '%s: %s == %s' % (where, core.srepr(a), core.srepr(b))
             elif op == 'freeze_none':
                 if freeze_message(None) is not None:
                     return 'freeze-none', 'freeze_message(None) is not None'
